@@ -219,7 +219,13 @@ Leaves == {A} \cup Lits
 (* JavaScript rejects some of these combinations outright; they have no reference value *)
 Legal(e) == ~(e.k = "obj" /\ \E i \in 1..Len(e.fs) : e.fs[i].t = "short" /\ e.fs[i].n \notin {"a", "b", "c", "d", "e"})
 
-Trees == {e \in Leaves \cup Trees1 \cup Trees1Lit \cup Trees2 : Legal(e)}
+(* an index whose expression is a call, standing where JavaScript evaluates it only sometimes: the branches of a
+   conditional, the right operand of && / || / ??.  (Depth 3: the call must not run when its branch is not taken.) *)
+Lazy == LET ix == Idx(A, Call(B, <<D>>)) IN
+        {Cond(C, ix, E), Cond(C, E, ix), Bin("&&", C, ix), Bin("||", C, ix), Bin("??", C, ix),
+         Cond(C, Mem(ix, "p"), E), Bin("&&", C, Idx(A, Idx(B, Call(D, <<E>>))))}
+
+Trees == {e \in Leaves \cup Trees1 \cup Trees1Lit \cup Trees2 \cup Lazy : Legal(e)}
 
 RoundTripOf(e, extra) == ParseRef(Pr(e, extra)) = e
 =============================================================================
